@@ -16,9 +16,13 @@ use crate::{
 ///
 /// # Errors
 ///
-/// If the input types are not supported.
+/// If the input types are not supported, or if the modulus `m` is zero (the
+/// in-circuit analog is unsatisfiable in that case).
 pub fn mod_exp_offcircuit(x: &IrValue, n: u64, m: &IrValue) -> Result<IrValue, Error> {
     match (x, m) {
+        (IrValue::BigUint(_), IrValue::BigUint(m)) if m.bits() == 0 => Err(Error::Other(
+            "cannot reduce modulo zero".to_string(),
+        )),
         (IrValue::BigUint(x), IrValue::BigUint(m)) => Ok(x.modpow(&BigUint::from(n), m).into()),
         _ => Err(Error::Unsupported(
             Operation::ModExp(n),
